@@ -707,11 +707,15 @@ def oracle(ops, impl):
     conns = {}          # id -> dict(tight, view, upnames:set, reaped)
     fdowner = {}        # serial -> conn id
     tree = None
+    canary = None       # last "#c" line: hash of everything outside the TightVNC root (incl. mtimes)
     for op, blk in zip(ops, blocks):
         t = op.split()
         trees = [l for l in blk if l.startswith("#t ")]
         if tree is None and trees:
             tree = trees[0]
+        cans = [l for l in blk if l.startswith("#c ")]
+        if t[0] not in ("ft", "send", "chunk", "gone") and cans:
+            canary = cans[-1]
         if t[0] == "cfg":
             permit = int(t[1].split("=")[1])
             c = t[2].split("=")[1]
@@ -777,7 +781,7 @@ def oracle(ops, impl):
         # sub-blocks: one per processed message (terminated by its status line)
         subs, cur = [], []
         for l in blk:
-            if l.startswith("#t ") and not cur and subs:
+            if (l.startswith("#t ") or l.startswith("#c ")) and not cur and subs:
                 subs[-1].append(l)          # the tree hash printed after a status line belongs to it
                 continue
             cur.append(l)
@@ -798,6 +802,7 @@ def oracle(ops, impl):
             for l in fsl:
                 if l.startswith("fs opendir ") and " -> ok " in l:
                     lnames += [unpct(x) for x in l.split(" -> ok ")[1].split(" ")[1:]]
+            cs = [l for l in sub if l.startswith("#c ")]
             for l in fsl:                      # descriptor ownership
                 tk = l.split(" ")
                 if tk[1] == "open" and tk[-1].startswith("#"):
@@ -844,6 +849,9 @@ def oracle(ops, impl):
                             return "TightVNC extension touched %r outside its root %r (%r)" % (p, ROOT, l)
                         if p not in names and p not in cn["up"]:
                             return "TightVNC extension touched %r, not a path named by the client in this request" % p
+                if cs and canary is not None and cs[-1] != canary and all(x.get("ty") != 7 for x in msgs):
+                    return ("a TightVNC message changed a file outside the extension's root %r (existence, size, "
+                            "content or modification time of the canary files)" % ROOT)
                 if gate and len(msgs) == 1 and msgs[0].get("ty") in (131, 132) and not msgs[0].get("trunc") \
                         and len(msgs[0]["pl"]) == msgs[0]["n"] and any(l.startswith("nonft") for l in blk):
                     return ("TightVNC request with a %d-byte name was answered without consuming the name: "
@@ -905,6 +913,8 @@ def oracle(ops, impl):
                     if tr and tree is not None and tr[-1] != tree and not any(" unlink " in l for l in fsl):
                         return "message not permitted but the sandbox directory changed"
             qidx += sum(1 for l in sub if l.startswith("q "))
+            if cs:
+                canary = cs[-1]
             if tr:
                 tree = tr[-1]
     return None
@@ -935,7 +945,9 @@ def fixed_scripts(maxlen):
         path: strlen == size (no HOME / "C:") and strlen(HOME)+1+strlen == size (HOME branch), and
         one byte less;
     (c) TightVNC names with "." components before / around "..", and controls;
-    (d) TightVNC name-size fields 0, 4095, 4096, 32767, 32768, 65535 (sign of `short`)."""
+    (d) TightVNC name-size fields 0, 4095, 4096, 32767, 32768, 65535 (sign of `short`);
+    (e) every rejection reason of every TightVNC request kind x every follow-up message that acts on
+        the per-client record, with a canary file outside the root."""
     out = []
     # (a)
     for k in range(0, 13):
@@ -991,6 +1003,33 @@ def fixed_scripts(maxlen):
         nm = (b"/" + b"x" * (n - 1)) if n else b""
         out.append(("fixed:tight-name-size-%d" % n, ["cfg permit=0 cb=none", "tight reg=1 en=1", "conn c0 tight", send(0, t_dl(nm)), send(0, t_list(b"/")),
                                                     send(0, t_ul(nm)), send(0, t_list(b"/rd")), "fds", "gone c0", "reap", "fds"]))
+    # (e) a refused request must leave no usable name in the per-client record: every rejection reason
+    #     of every request kind, with and without an upload in progress, followed by every message that
+    #     acts on the record; the over-long / unrooted names point at a canary file outside the root
+    canary = SBb + b"/secret.txt"
+
+    def padded(L):
+        room = L - len(canary)
+        k, odd = divmod(room, 2)
+        return b"/." * k + (b"/" if odd else b"") + canary
+
+    reasons = [("toolong-min", padded(4095 - len(ROOT) + 1)), ("toolong-4090", padded(4090)), ("toolong-max", padded(4095)),
+               ("dotdot", b"/../secret.txt"), ("nul", b"\0/../secret.txt"), ("relative", b"2/secret"),
+               ("nonexistent", b"/nodir/none.txt")]
+    kinds = [("list", t_list), ("download", t_dl), ("upload", t_ul), ("mkdir", t_mkdir)]
+    follow = [("data", t_data(b"abc")), ("end", t_done()), ("failed", t_reason(135, b"no")), ("cancel", t_reason(134, b"no")),
+              ("download", t_dl(b"/r.txt")), ("list", t_list(b"/")), ("data-compressed", t_data(b"abc", level=1))]
+    combos = [(pre, kn, kf, rn, rv, fn, fv) for pre in (0, 1) for kn, kf in kinds for rn, rv in reasons for fn, fv in follow]
+    per = 14
+    for base in range(0, len(combos), per):
+        ops = ["cfg permit=0 cb=none", "tight reg=1 en=1"]
+        for i, (pre, kn, kf, rn, rv, fn, fv) in enumerate(combos[base:base + per]):
+            ops.append("conn c%d tight" % i)
+            if pre:
+                ops += [send(i, t_ul(b"/ok%d" % i)), send(i, t_data(b"xy"))]
+            ops += [send(i, kf(rv)), send(i, fv), send(i, t_done()), "gone c%d" % i]
+        ops += ["reap", "fds"]
+        out.append(("fixed:tight-refused-followup-%d" % (base // per), ops))
     return [(n, "\n".join(o) + "\n") for n, o in out]
 
 
